@@ -118,3 +118,218 @@ Proof.
   rewrite forallb_forall in S1. pose proof (S1 (blen body) (In_Nrange 256 _ L)) as S2.
   apply eqb_prop in S2. exact S2.
 Qed.
+
+(* the facts used below, for the three flags and the masks 3 (LLID), 8 (SN), 224 (RFU) *)
+Lemma llid_setb_nesn h b : llid (setb h nesn_flag b) = llid h.
+Proof. unfold llid. apply land_setb_indep. reflexivity. Qed.
+Lemma llid_lor_md h : llid (N.lor h more_data_flag) = llid h.
+Proof. unfold llid. apply land_lor_indep. reflexivity. Qed.
+Lemma llid_lor_sn h : llid (N.lor h sn_flag) = llid h.
+Proof. unfold llid. apply land_lor_indep. reflexivity. Qed.
+Lemma sn_setb_nesn h b : has (setb h nesn_flag b) sn_flag = has h sn_flag.
+Proof. apply has_indep_setb. reflexivity. Qed.
+Lemma sn_lor_md h : has (N.lor h more_data_flag) sn_flag = has h sn_flag.
+Proof. apply has_indep_lor. reflexivity. Qed.
+Lemma sn_lor_sn h : has (N.lor h sn_flag) sn_flag = true.
+Proof. exact (has_lor_same h 3). Qed.
+Lemma rfu_setb_nesn h b : N.land (setb h nesn_flag b) header_rfu_mask = N.land h header_rfu_mask.
+Proof. apply land_setb_indep. reflexivity. Qed.
+Lemma rfu_lor_md h : N.land (N.lor h more_data_flag) header_rfu_mask = N.land h header_rfu_mask.
+Proof. apply land_lor_indep. reflexivity. Qed.
+Lemma rfu_lor_sn h : N.land (N.lor h sn_flag) header_rfu_mask = N.land h header_rfu_mask.
+Proof. apply land_lor_indep. reflexivity. Qed.
+Lemma len_setb_nesn h b : hdr_len (setb h nesn_flag b) = hdr_len h.
+Proof. apply hdr_len_setb. reflexivity. Qed.
+Lemma len_lor_md h : hdr_len (N.lor h more_data_flag) = hdr_len h.
+Proof. apply hdr_len_lor. reflexivity. Qed.
+Lemma len_lor_sn h : hdr_len (N.lor h sn_flag) = hdr_len h.
+Proof. apply hdr_len_lor. reflexivity. Qed.
+Lemma nesn_setb_nesn h b : has (setb h nesn_flag b) nesn_flag = b.
+Proof. exact (has_setb_same h 2 b). Qed.
+
+Global Hint Rewrite llid_setb_nesn llid_lor_md llid_lor_sn sn_setb_nesn sn_lor_md sn_lor_sn rfu_setb_nesn
+  rfu_lor_md rfu_lor_sn len_setb_nesn len_lor_md len_lor_sn nesn_setb_nesn : hdr.
+
+Lemma land_sub h a b : N.land h a = 0 -> N.land a b = b -> N.land h b = 0.
+Proof. intros H K. rewrite <- K, N.land_assoc, H. reflexivity. Qed.
+
+Lemma leqb_refl a : leqb a a = true.
+Proof. induction a; simpl; auto. rewrite N.eqb_refl. auto. Qed.
+
+Lemma leqb_eq a b : leqb a b = true -> a = b.
+Proof.
+  revert b; induction a as [|x a IH]; intros [|y b] H; simpl in H; try discriminate; auto.
+  apply andb_true_iff in H. destruct H as [H1 H2]. apply N.eqb_eq in H1. f_equal; auto.
+Qed.
+
+(* ===================================================================== Part B: refinement *)
+
+Definition key (e : elem) : N * list N := (llid (e_hdr e), e_body e).
+Definition raw (e : elem) : N * list N := (e_hdr e, e_body e).
+Definition lenok (e : elem) : Prop := hdr_len (e_hdr e) = blen (e_body e).
+Definition good (e : elem) : Prop := lenok e /\ N.land (e_hdr e) header_rfu_mask = 0.
+
+(* sequence numbers of the queued PDUs alternate, starting with b *)
+Fixpoint alt (b : bool) (q : list elem) : Prop :=
+  match q with
+  | [] => True
+  | e :: t => has (e_hdr e) sn_flag = b /\ alt (negb b) t
+  end.
+(* ... and the next committed PDU gets *)
+Fixpoint endsn (b : bool) (q : list elem) : bool :=
+  match q with
+  | [] => b
+  | _ :: t => endsn (negb b) t
+  end.
+
+Lemma alt_app b q e : alt b (q ++ [e]) <-> alt b q /\ has (e_hdr e) sn_flag = endsn b q.
+Proof.
+  revert b; induction q as [|x q IH]; intros b; simpl.
+  - tauto.
+  - rewrite IH. tauto.
+Qed.
+
+Lemma endsn_app b q e : endsn b (q ++ [e]) = negb (endsn b q).
+Proof. revert b; induction q as [|x q IH]; intros b; simpl; auto. Qed.
+
+Definition empty_ok (h : N) (b : bool) : Prop :=
+  llid h = ll_empty_id /\ has h sn_flag = b /\ hdr_len h = 0 /\ N.land h header_rfu_mask = 0.
+
+Definition TxRel (s : state) (m : mon) : Prop :=
+  let q := r_q (txr s) in
+  m_txq m = map key q /\ Forall good q /\
+  match m_cur m with
+  | CNone => next_empty s = false /\ alt (m_sn m) q /\ sn s = endsn (m_sn m) q
+  | CEmpty b => next_empty s = true /\ empty_sn s = b /\ empty_ok (empty_hdr s) b /\ m_sn m = negb b
+                /\ alt (negb b) q /\ sn s = endsn (negb b) q
+  | CData b => next_empty s = false /\ m_sn m = negb b /\ alt b q /\ q <> [] /\ sn s = endsn b q
+  end.
+
+Record Rel (cf : cfg) (s : state) (m : mon) : Prop := mkRel {
+  R_o : m_o m = c_o cf;
+  R_nesn : m_nesn m = nesn s;
+  R_rxq : m_rxq m = map raw (r_q (rxr s));
+  R_rxgood : Forall lenok (r_q (rxr s));
+  R_stopped : m_stopped m = stopped s;
+  R_maxrx : max_rx s <= 251;
+  R_tx : m_txdead m = false -> TxRel s m }.
+
+Lemma Rel_init cf : Rel cf (init cf) (minit cf).
+Proof.
+  constructor; simpl; auto; try (unfold min_buffer_size; lia).
+  intros _. unfold TxRel; simpl. repeat split; auto.
+Qed.
+
+Lemma empty_new_ok (sq nb : bool) :
+  empty_ok (setb (if sq then sn_flag + ll_empty_id else ll_empty_id) nesn_flag nb) sq.
+Proof. destruct sq, nb; vm_compute; auto. Qed.
+
+Lemma data_matches_ok o e b h :
+  good e -> has (e_hdr e) sn_flag = b ->
+  llid h = llid (e_hdr e) -> has h sn_flag = has (e_hdr e) sn_flag -> hdr_len h = hdr_len (e_hdr e) ->
+  N.land h header_rfu_mask = N.land (e_hdr e) header_rfu_mask ->
+  data_matches o (key e) b (msz o h) h (e_body e) = true.
+Proof.
+  intros [G1 G2] S L1 L2 L3 L4. unfold data_matches, key, msz. simpl fst; simpl snd.
+  unfold lenok in G1.
+  rewrite L1, L2, L3, L4, S, G1, G2, leqb_refl, !N.eqb_refl, eqb_reflx. reflexivity.
+Qed.
+
+Lemma empty_matches_ok o h b : empty_ok h b -> empty_matches o b (2 + o) h [] = true.
+Proof.
+  intros (A & B & C & D). unfold empty_matches. rewrite A, B, C, D, eqb_reflx, !N.eqb_refl. reflexivity.
+Qed.
+
+Lemma empty_ok_setb h b nb : empty_ok h b -> empty_ok (setb h nesn_flag nb) b.
+Proof. intros (A & B & C & D). unfold empty_ok. autorewrite with hdr. auto. Qed.
+
+Lemma good_w_hdr e h :
+  good e -> hdr_len h = hdr_len (e_hdr e) -> N.land h header_rfu_mask = N.land (e_hdr e) header_rfu_mask ->
+  good (w_hdr e h).
+Proof. intros [G1 G2] A B. unfold good, lenok in *. simpl. rewrite A, B. auto. Qed.
+
+Lemma key_w_hdr e h : llid h = llid (e_hdr e) -> key (w_hdr e h) = key e.
+Proof. intros A. unfold key. simpl. rewrite A. reflexivity. Qed.
+
+(* what next_transmit() leaves alone, and the NESN it sends *)
+Lemma next_transmit_frame cf s s' sz h b :
+  next_transmit cf s = (s', (sz, h, b)) ->
+  has h nesn_flag = nesn s /\ nesn s' = nesn s /\ rxr s' = rxr s /\ stopped s' = stopped s /\ max_rx s' = max_rx s.
+Proof.
+  unfold next_transmit, with_nesn. intros H.
+  destruct (next_empty s).
+  - destruct (r_q (txr s)) as [|e t]; inversion H; subst; clear H; simpl; autorewrite with hdr; auto.
+  - destruct (r_q (txr s)) as [|e t]; inversion H; subst; clear H; simpl; autorewrite with hdr; auto.
+Qed.
+
+Lemma next_transmit_tx cf s m s' sz h b tag :
+  m_o m = c_o cf -> m_nesn m = nesn s -> m_txdead m = false -> TxRel s m ->
+  next_transmit cf s = (s', (sz, h, b)) ->
+  exists m', check_resp tag m sz h b = (Ok, m') /\ TxRel s' m' /\
+             m_o m' = m_o m /\ m_nesn m' = m_nesn m /\ m_rxq m' = m_rxq m /\ m_stopped m' = m_stopped m
+             /\ m_txdead m' = false.
+Proof.
+  intros Ho Hn Hd T H.
+  pose proof (next_transmit_frame _ _ _ _ _ _ H) as (Fn & _).
+  unfold check_resp. rewrite Fn, Hn, eqb_reflx, Hd. simpl negb. cbv iota.
+  unfold TxRel in T. destruct T as (Tq & Tg & Tc).
+  unfold next_transmit, with_nesn in H.
+  destruct (m_cur m) as [|be|bd] eqn:Ec.
+  - (* nothing in flight *)
+    destruct Tc as (Ne & Ta & Ts). rewrite Ne in H.
+    destruct (r_q (txr s)) as [|e t] eqn:Eq.
+    + (* a new empty PDU *)
+      inversion H; subst; clear H. rewrite Tq. simpl map. cbv iota.
+      rewrite Ho. simpl in Ts. rewrite Ts.
+      rewrite (empty_matches_ok _ _ _ (empty_new_ok (m_sn m) (nesn s))).
+      eexists; split; [reflexivity|]. unfold TxRel. simpl. rewrite Eq. simpl.
+      repeat split; auto using empty_new_ok. apply empty_new_ok.
+    + (* a new data PDU *)
+      inversion H; subst; clear H. rewrite Tq. simpl map. cbv iota.
+      inversion Tg as [|? ? Ge Gt]; subst. destruct Ta as [Ta1 Ta2].
+      set (h1 := if (2 <=? length (e :: t))%nat then N.lor (e_hdr e) more_data_flag else e_hdr e).
+      assert (A1 : llid (setb h1 nesn_flag (nesn s)) = llid (e_hdr e)) by (unfold h1; destruct (2 <=? _)%nat; autorewrite with hdr; auto).
+      assert (A2 : has (setb h1 nesn_flag (nesn s)) sn_flag = has (e_hdr e) sn_flag) by (unfold h1; destruct (2 <=? _)%nat; autorewrite with hdr; auto).
+      assert (A3 : hdr_len (setb h1 nesn_flag (nesn s)) = hdr_len (e_hdr e)) by (unfold h1; destruct (2 <=? _)%nat; autorewrite with hdr; auto).
+      assert (A4 : N.land (setb h1 nesn_flag (nesn s)) header_rfu_mask = N.land (e_hdr e) header_rfu_mask) by (unfold h1; destruct (2 <=? _)%nat; autorewrite with hdr; auto).
+      rewrite Ho, (data_matches_ok (c_o cf) e (m_sn m) _ Ge Ta1 A1 A2 A3 A4).
+      eexists; split; [reflexivity|]. unfold TxRel. simpl.
+      rewrite key_w_hdr by exact A1. rewrite Ne.
+      repeat split; auto.
+      * constructor; auto. apply good_w_hdr; auto.
+      * rewrite A2. auto.
+      * discriminate.
+  - (* an empty PDU in flight *)
+    destruct Tc as (Ne & Tes & Teo & Tsn & Ta & Ts). rewrite Ne in H.
+    destruct (r_q (txr s)) as [|e t] eqn:Eq.
+    + inversion H; subst; clear H.
+      rewrite Ho, (empty_matches_ok _ _ _ (empty_ok_setb _ _ (nesn s) Teo)).
+      eexists; split; [reflexivity|]. unfold TxRel. rewrite Ec. simpl. rewrite Eq.
+      repeat split; auto. apply (empty_ok_setb _ _ _ Teo).
+    + inversion H; subst; clear H. simpl.
+      rewrite Ho, (empty_matches_ok _ _ _ (empty_ok_setb _ _ (nesn s) Teo)).
+      eexists; split; [reflexivity|]. unfold TxRel. rewrite Ec. simpl.
+      inversion Tg as [|? ? Ge Gt]; subst. destruct Ta as [Ta1 Ta2].
+      rewrite key_w_hdr by (simpl; autorewrite with hdr; auto).
+      repeat split; auto.
+      * constructor; auto. apply good_w_hdr; auto; autorewrite with hdr; auto.
+      * apply (empty_ok_setb _ _ _ Teo).
+      * autorewrite with hdr. auto.
+  - (* a data PDU in flight *)
+    destruct Tc as (Ne & Tsn & Ta & Tne & Ts). rewrite Ne in H.
+    destruct (r_q (txr s)) as [|e t] eqn:Eq; [congruence|].
+    inversion H; subst; clear H. rewrite Tq. simpl map. cbv iota.
+    inversion Tg as [|? ? Ge Gt]; subst. destruct Ta as [Ta1 Ta2].
+    set (h1 := if (2 <=? length (e :: t))%nat then N.lor (e_hdr e) more_data_flag else e_hdr e).
+    assert (A1 : llid (setb h1 nesn_flag (nesn s)) = llid (e_hdr e)) by (unfold h1; destruct (2 <=? _)%nat; autorewrite with hdr; auto).
+    assert (A2 : has (setb h1 nesn_flag (nesn s)) sn_flag = has (e_hdr e) sn_flag) by (unfold h1; destruct (2 <=? _)%nat; autorewrite with hdr; auto).
+    assert (A3 : hdr_len (setb h1 nesn_flag (nesn s)) = hdr_len (e_hdr e)) by (unfold h1; destruct (2 <=? _)%nat; autorewrite with hdr; auto).
+    assert (A4 : N.land (setb h1 nesn_flag (nesn s)) header_rfu_mask = N.land (e_hdr e) header_rfu_mask) by (unfold h1; destruct (2 <=? _)%nat; autorewrite with hdr; auto).
+    rewrite Ho, (data_matches_ok (c_o cf) e bd _ Ge Ta1 A1 A2 A3 A4).
+    eexists; split; [reflexivity|]. unfold TxRel. rewrite Ec. simpl.
+    rewrite key_w_hdr by exact A1. rewrite Ne.
+    repeat split; auto.
+    * constructor; auto. apply good_w_hdr; auto.
+    * rewrite A2. auto.
+    * discriminate.
+Qed.
